@@ -719,3 +719,74 @@ func VerifC15Aliases() {
 	verifAssert(verifEqStr(vDumpList(plain), vDumpList(exploded)), "C15/alias-element-not-ordered-as-what-it-stands-for "+label)
 	verifCover("C15/aliases/end")
 }
+
+// VerifC15SortByManyKeys: sort_by with an expression that yields a different NUMBER of keys per element
+// (`sort_by(.t[])`): the key lists are ordered lexicographically, a proper prefix before its extensions - one total
+// preorder, so the result is ordered, stable and a permutation whatever the arrangement of the input.
+func VerifC15SortByManyKeys() {
+	n := 2 + verifChoice("n", verifParam("manyn", 2))
+	seq := vSeq()
+	lens := make([]int, n)
+	keys := make([][2]int64, n)
+	for i := 0; i < n; i++ {
+		lens[i] = verifChoice("len"+verifItoa(int64(i)), 3)
+		t := vSeq()
+		for j := 0; j < lens[i]; j++ {
+			d := verifStrN("k"+verifItoa(int64(i))+verifItoa(int64(j)), 1, "02")
+			keys[i][j], _ = parseInt64ForHarness(d)
+			t.Content = append(t.Content, vInt(d))
+		}
+		seq.Content = append(seq.Content, vMap(vStr("t"), t, vStr("id"), vInt(verifItoa(int64(i)))))
+	}
+	res, err := vEval(vParse("sort_by(.t[])"), vDoc(seq))
+	verifAssert(err == nil && res.Len() == 1, "C15/sort-error many-keys")
+	if err != nil || res.Len() != 1 {
+		return
+	}
+	out := res.Front().Value.(*CandidateNode)
+	verifAssert(len(out.Content) == n, "C15/sort-length many-keys")
+	if len(out.Content) != n {
+		return
+	}
+	// lexicographic order of the key lists, a prefix first: -1, 0, 1 as a solver term per pair
+	less := func(a, b int) (lt bool, eq bool) {
+		la, lb := lens[a], lens[b]
+		lt, eq = false, true
+		for j := 0; j < 2; j++ {
+			if j >= la || j >= lb {
+				break
+			}
+			lt = verifOr(lt, verifAnd(eq, keys[a][j] < keys[b][j]))
+			eq = verifAnd(eq, keys[a][j] == keys[b][j])
+		}
+		m := la
+		if lb < m {
+			m = lb
+		}
+		_ = m
+		if la < lb {
+			lt = verifOr(lt, eq)
+			eq = false
+		} else if la > lb {
+			eq = false
+		}
+		return
+	}
+	used := make([]bool, n)
+	prev := -1
+	for i := 0; i < n; i++ {
+		el := out.Content[i]
+		id64, _ := parseInt(el.Content[3].Value)
+		id := verifConcreteInt(id64, 0, n-1)
+		verifAssert(!used[id], "C15/sort-permutation many-keys")
+		used[id] = true
+		if prev >= 0 {
+			gt, _ := less(id, prev)
+			verifAssert(!gt, "C15/sort-ordered many-keys")
+			_, eq := less(prev, id)
+			verifAssert(verifImplies(eq, prev < id), "C15/sort-stable many-keys")
+		}
+		prev = id
+	}
+	verifCover("C15/sort-many-keys/end")
+}
